@@ -100,6 +100,12 @@ def worker_explore(spec):
     keep_all = spec.get("keep_all_sigs", False)
     seen_classes = {}
     nontrivial = set()
+    distinct = {}
+    fp0 = None
+    if spec.get("fingerprint"):
+        from . import registry
+        registry.base_snapshot()
+        fp0 = registry.fingerprint()
     for n, i in enumerate(spec["indices"]):
         if time.time() > deadline:
             out["skipped"] = len(spec["indices"]) - n
@@ -118,6 +124,9 @@ def worker_explore(spec):
             out["sigs"][str(i)] = res.get("sig", res["digest"])
         if res.get("nontrivial"):
             nontrivial.add(res["digest"])
+        for k, v in res.get("distinct", {}).items():
+            if v is not None:
+                distinct.setdefault(k, set()).add(v)
         if len(out["samples"]) < 2 and res.get("nontrivial"):
             out["samples"].append({"index": i, "case": check.describe(case)})
         for v in res.get("violations", []):
@@ -127,7 +136,11 @@ def worker_explore(spec):
             if c < 3:
                 out["violations"].append({"index": i, "case": case, "violation": v})
     out["nontrivial"] = sorted(nontrivial)
+    out["distinct"] = dict((k, sorted(v)) for k, v in distinct.items())
     out["violation_counts"] = seen_classes
+    if fp0 is not None:
+        from . import registry
+        out["fingerprint"] = [fp0, registry.fingerprint()]
     return out
 
 
@@ -342,13 +355,15 @@ def explore(check, tier, seed, scratch, runs=None, wall=None, procs=None):
     wall_s = time.time() - t0
     agg = {"runs": 0, "stats": {}, "nontrivial": set(), "violations": [], "samples": [], "sim_seconds": 0.0,
            "skipped": 0, "violation_counts": {}, "replicated": 0, "hashseeds": [], "wall_s": wall_s,
-           "divergent": []}
+           "divergent": [], "distinct": {}}
     sig_by_index = {}
     for w, nmine, o in outs:
         agg["runs"] += o["runs"]
         agg["skipped"] += o["skipped"]
         _merge_stats(agg["stats"], o["stats"])
         agg["nontrivial"].update(o["nontrivial"])
+        for k, v in o.get("distinct", {}).items():
+            agg["distinct"].setdefault(k, set()).update(v)
         agg["violations"].extend(o["violations"])
         agg["sim_seconds"] += o["sim_seconds"]
         agg["hashseeds"].append(o["hashseed"])
@@ -412,6 +427,7 @@ def write_evidence(check, tier, seed, agg, extra_cov, violations, wall_s):
         "worker_processes": len(agg["hashseeds"]),
         "real_vs_stub": check.real_vs_stub,
         "violation_classes_seen": agg["violation_counts"],
+        "distinct_counts": dict((k, len(v)) for k, v in agg["distinct"].items()),
     }
     cov.update(extra_cov)
     doc = {
